@@ -134,7 +134,9 @@ class DirectoryResourcePopulator:
             trim_extensions = self.trim_extensions
 
         for rule in self.rules:
-            full_dir_path = pt.join(root, rule.directory_path)
+            # Normalized: 'dir/' and 'dir/.' name the same thing as 'dir',
+            # also when that is a regular file
+            full_dir_path = pt.normpath(pt.join(root, rule.directory_path))
 
             # Silently skip if non-existing, but get angry if it exists
             # and is not a directory
